@@ -2,7 +2,7 @@
    invariants of the run contexts that keep the Golomb parameter readable (k <= 32). *)
 From V Require Import Common.Base JpegLS.JlsParams JpegLS.JlsGolomb JpegLS.JlsRun JpegLS.JlsModel.
 From V Require Import JpegLS.JlsProofsParams JpegLS.JlsProofsGolomb JpegLS.JlsProofsSample
-                      JpegLS.JlsProofsRun JpegLS.JlsProofsNear0.
+                      JpegLS.JlsProofsRun JpegLS.JlsProofsNear0 JpegLS.JlsProofsWriter.
 
 (* ---------- run context invariant ---------- *)
 
@@ -174,6 +174,7 @@ Section Interrupt.
     let e := pk_error pk p (sg * (x - px)) in
     let r := EncodeRunInterruption p ri c e in
     DecodeRunInterruption p ri c (ops_bits (fst r) ++ rest) = Some (e, snd r, rest) /\
+    Forall wop_ok (fst r) /\
     runctx_ok (snd r) /\ rc_type (snd r) = rc_type c /\
     e = ModuloRange p (quantize p (sg * (x - px))) /\
     - (jp_range p - 1) <= e <= jp_range p - 1 /\
@@ -192,9 +193,9 @@ Section Interrupt.
     { intro T. rewrite He. apply (ModuloRange_nonzero p P HP Fmv Fn0 Fn2 FR); [exact Hq2|].
       apply (quantize_nonzero p P HP Fmv Fn0 Fn2 FR); [exact Hd|].
       specialize (Hnz T). rewrite Fnear. destruct Hsg; subst sg; lia. }
-    split.
-    { apply run_interruption_roundtrip; try assumption; try lia.
-      - apply GetGolombCode_le32; assumption. }
+    destruct (run_interruption_roundtrip p ri c e rest Hty Hnz' Hri (GetGolombCode_le32 c Hty Hok)
+                ltac:(lia) ltac:(lia) ltac:(lia) ltac:(lia)) as [Hrt Hwok].
+    split; [exact Hrt|]. split; [apply Hwok; lia|].
     (* the update *)
     unfold r, EncodeRunInterruption. cbv zeta. cbn [snd]. rewrite Freset.
     set (k := GetGolombCode c).
@@ -221,7 +222,7 @@ Section Interrupt.
     interrupt_enc pk p st x ra rb = (iops, st2, recon) ->
     interrupt_dec pk p st ra rb (ops_bits iops ++ rest) = Some (recon, st2, rest) /\
     jst_ok st2 /\ js_ri st2 = js_ri st /\ js_ctxs st2 = js_ctxs st /\
-    Z.abs (recon - x) <= near /\ 0 <= recon <= 2 ^ P - 1.
+    Z.abs (recon - x) <= near /\ 0 <= recon <= 2 ^ P - 1 /\ Forall wop_ok iops.
   Proof.
     intros st x ra rb rest iops st2 recon (Hri & Hok0 & Hty0 & Hok1 & Hty1) Hra Hrb Hx Hfar Henc.
     destruct facts_unpack as (Fmv & Fnear & Fn0 & Fn2 & FR & FR2 & FRq & Fq & Fll & Flh & Freset).
@@ -232,11 +233,11 @@ Section Interrupt.
                     (or_introl eq_refl) Hra Hx (fun _ => Hfar)) as Hc.
       cbv zeta in Hc. rewrite !Z.mul_1_l in Hc.
       destruct (EncodeRunInterruption p (js_ri st) (js_rc1 st) (pk_error pk p (x - ra))) as [ops c1] eqn:E.
-      cbn [fst snd] in Hc. destruct Hc as (Hdec & Hok' & Hty' & He & Her & Hb1 & Hb2).
+      cbn [fst snd] in Hc. destruct Hc as (Hdec & Hwok & Hok' & Hty' & He & Her & Hb1 & Hb2).
       inversion Henc; subst iops st2 recon. rewrite Hdec.
       assert (Hst : jst_ok (mkJst (js_ctxs st) (js_rc0 st) c1 (js_ri st))).
       { unfold jst_ok. cbn. rewrite Hty', Hty1. auto. }
-      split; [|split; [exact Hst | split; [reflexivity | split; [reflexivity | split; assumption]]]].
+      split; [|split; [exact Hst | split; [reflexivity | split; [reflexivity | split; [assumption | split; assumption]]]]].
       destruct pk; [|reflexivity].
       (* lossless: the decoder reduces the decoded error once more; same reconstruction *)
       simpl in Hpk. unfold ll_computeErrorValue.
@@ -248,12 +249,12 @@ Section Interrupt.
                     (signInt_cases _) Hrb Hx ltac:(intro T; rewrite Hty0 in T; discriminate)) as Hc.
       cbv zeta in Hc. replace (sg * (x - rb)) with ((x - rb) * sg) in Hc by ring.
       destruct (EncodeRunInterruption p (js_ri st) (js_rc0 st) (pk_error pk p ((x - rb) * sg))) as [ops c0] eqn:E.
-      cbn [fst snd] in Hc. destruct Hc as (Hdec & Hok' & Hty' & He & Her & Hb1 & Hb2).
+      cbn [fst snd] in Hc. destruct Hc as (Hdec & Hwok & Hok' & Hty' & He & Her & Hb1 & Hb2).
       inversion Henc; subst iops st2 recon. rewrite Hdec.
       assert (Hst : jst_ok (mkJst (js_ctxs st) c0 (js_rc1 st) (js_ri st))).
       { unfold jst_ok. cbn. rewrite Hty', Hty0. auto. }
       replace (pk_error pk p ((x - rb) * sg) * sg) with (sg * pk_error pk p ((x - rb) * sg)) by ring.
-      split; [|split; [exact Hst | split; [reflexivity | split; [reflexivity | split; assumption]]]].
+      split; [|split; [exact Hst | split; [reflexivity | split; [reflexivity | split; [assumption | split; assumption]]]]].
       destruct pk; [|f_equal; f_equal; f_equal; f_equal; ring].
       simpl in Hpk. unfold ll_computeErrorValue.
       assert (Hrange : - (jp_range p - 1) <= sg * pk_error PkLossless p ((x - rb) * sg) <= jp_range p - 1).
@@ -270,7 +271,7 @@ Section Interrupt.
     interrupt_enc_i pk p st xs left above = (iops, st2, recon) ->
     interrupt_dec_i p st left above (ops_bits iops ++ rest) = Some (recon, st2, rest) /\
     jst_ok st2 /\ js_ri st2 = js_ri st /\ js_ctxs st2 = js_ctxs st /\
-    Z.abs (recon - xs) <= near /\ 0 <= recon <= 2 ^ P - 1.
+    Z.abs (recon - xs) <= near /\ 0 <= recon <= 2 ^ P - 1 /\ Forall wop_ok iops.
   Proof.
     intros st xs left above rest iops st2 recon (Hri & Hok0 & Hty0 & Hok1 & Hty1) Hab Hx Henc.
     unfold interrupt_enc_i in Henc. unfold interrupt_dec_i. cbv zeta in Henc.
@@ -279,11 +280,11 @@ Section Interrupt.
                   (signInt_cases _) Hab Hx ltac:(intro T; rewrite Hty0 in T; discriminate)) as Hc.
     cbv zeta in Hc.
     destruct (EncodeRunInterruption p (js_ri st) (js_rc0 st) (pk_error pk p (sg * (xs - above)))) as [ops c0] eqn:E.
-    cbn [fst snd] in Hc. destruct Hc as (Hdec & Hok' & Hty' & He & Her & Hb1 & Hb2).
+    cbn [fst snd] in Hc. destruct Hc as (Hdec & Hwok & Hok' & Hty' & He & Her & Hb1 & Hb2).
     inversion Henc; subst iops st2 recon. rewrite Hdec.
     assert (Hst : jst_ok (mkJst (js_ctxs st) c0 (js_rc1 st) (js_ri st))).
     { unfold jst_ok. cbn. rewrite Hty', Hty0. auto. }
     replace (pk_error pk p (sg * (xs - above)) * sg) with (sg * pk_error pk p (sg * (xs - above))) by ring.
-    split; [reflexivity | split; [exact Hst | split; [reflexivity | split; [reflexivity | split; assumption]]]].
+    split; [reflexivity | split; [exact Hst | split; [reflexivity | split; [reflexivity | split; [assumption | split; assumption]]]]].
   Qed.
 End Interrupt.
